@@ -729,6 +729,16 @@ func lenBound(base ssa.Value, b *ssa.BasicBlock, d int) (int64, bool) {
 			}
 			return arr.Len(), true
 		}
+	case *ssa.Call:
+		// append(x, y...): the lengths add up (a defensive copy has the length of its source)
+		if builtinName(t) == "append" && len(t.Call.Args) == 2 {
+			n1, ok1 := lenBound(t.Call.Args[0], b, d+1)
+			n2, ok2 := lenBound(t.Call.Args[1], b, d+1)
+			if ok1 && ok2 {
+				return n1 + n2, true
+			}
+			return 0, false
+		}
 	case *ssa.Phi:
 		var mx int64
 		for _, e := range t.Edges {
